@@ -1026,6 +1026,24 @@ seq_t dtw_distance_ndim_euclidean(seq_t *s1, idx_t l1,
 // MARK: WPS
 
 /*!
+Compact warping paths layout: matrix column c of row ri (0-based row of the first series)
+is stored at index c - dtw_wps_shift(p, ri) of that row.
+*/
+static idx_t dtw_wps_shift(DTWWps* p, idx_t ri) {
+    if (ri < p->ri2) {
+        return 0;
+    }
+    if (ri < p->ri3) {
+        return 1 + ri - p->ri2;
+    }
+    if (p->ri2 == p->ri3) {
+        return 0;
+    }
+    return p->ri3 - p->ri2;
+}
+
+
+/*!
 Compute all warping paths between two series.
  
 @param wps Empty array of length `(l1+1)*min(l2+1, abs(l1-l2) + 2*window-1)` in which the warping paths will be stored.
@@ -1347,39 +1365,34 @@ seq_t dtw_warping_paths_ndim(seq_t *wps,
 //    dtw_print_wps(wps, l1, l2, settings);
 
     seq_t rvalue = 0;
-    idx_t final_wpsi = ri_widthp + wpsi - 1;
+    // Index of the last cell: the rows below the left overlap are shifted in the compact layout
+    idx_t final_wpsi = l1*p.width + l2 - dtw_wps_shift(&p, l1 - 1);
     // Deal with Psi-relaxation
     if (return_dtw && settings->psi_1e == 0 && settings->psi_2e == 0) {
         rvalue = wps[final_wpsi];
     } else if (return_dtw) {
         seq_t mir_value = INFINITY;
-        idx_t mir_rel = 0;
+        idx_t mir_rel = l1;
         seq_t mic_value = INFINITY;
-        idx_t mic = 0;
+        idx_t mic = l2;
         // Find smallest value in last column
         if (settings->psi_1e != 0) {
-            wpsi = final_wpsi;
-            for (ri=l1-1; ri>l1-settings->psi_1e-2; ri--) {
-                if (wps[wpsi] < mir_value) {
-                    mir_value = wps[wpsi];
-                    mir_rel = ri + 1;
-                } else {
-                    // pass
+            for (ri=l1; ri>0 && ri+settings->psi_1e>=l1; ri--) {
+                ci = l2 - dtw_wps_shift(&p, ri - 1);  // index of the last column in row ri
+                if (ci >= 0 && ci < p.width && wps[ri*p.width + ci] < mir_value) {
+                    mir_value = wps[ri*p.width + ci];
+                    mir_rel = ri;
                 }
-                wpsi -= p.width;
             }
         }
         // Find smallest value in last row
         if (settings->psi_2e != 0) {
-            wpsi = final_wpsi;
-            for (ci=l2-1; ci>l2-settings->psi_2e-2; ci--) {
-                if (wps[wpsi] < mic_value) {
-                    mic_value = wps[wpsi];
-                    mic = ci + 1;
-                } else {
-                    // pass
+            for (ci=l2; ci>0 && ci+settings->psi_2e>=l2; ci--) {
+                wpsi = ci - dtw_wps_shift(&p, l1 - 1);  // index of column ci in the last row
+                if (wpsi >= 0 && wpsi < p.width && wps[l1*p.width + wpsi] < mic_value) {
+                    mic_value = wps[l1*p.width + wpsi];
+                    mic = ci;
                 }
-                wpsi -= 1;
             }
         }
         // Set values with higher indices than the smallest value to -1
@@ -1387,21 +1400,22 @@ seq_t dtw_warping_paths_ndim(seq_t *wps,
         if (mir_value < mic_value) {
             // last column has smallest value
             if (psi_neg) {
-                for (idx_t ri=mir_rel + 1; ri<l1 + 1; ri++) {
-                    wpsi = ri*p.width + (p.width - 1);
-                    wps[wpsi] = -1;
+                for (ri=mir_rel + 1; ri<l1 + 1; ri++) {
+                    ci = l2 - dtw_wps_shift(&p, ri - 1);
+                    if (ci >= 0 && ci < p.width) {
+                        wps[ri*p.width + ci] = -1;
+                    }
                 }
             }
             rvalue = mir_value;
         } else {
             // last row has smallest value
             if (psi_neg) {
-                for (ci=p.width - (l2 - mic); ci<p.width; ci++) {
-                    wpsi = l1*p.width + ci;
-                    if (p.window != 0 && p.window != l2) {
-                        wpsi--;
+                for (ci=mic + 1; ci<l2 + 1; ci++) {
+                    wpsi = ci - dtw_wps_shift(&p, l1 - 1);
+                    if (wpsi >= 0 && wpsi < p.width) {
+                        wps[l1*p.width + wpsi] = -1;
                     }
-                    wps[wpsi] = -1;
                 }
             }
             rvalue =  mic_value;
@@ -1410,8 +1424,9 @@ seq_t dtw_warping_paths_ndim(seq_t *wps,
         rvalue = -1;
     }
 
-    if (settings->max_dist > 0 && rvalue > settings->max_dist) {
+    if (rvalue > p.max_dist) {
         // DTWPruned keeps the last value larger than max_dist. Correct for this.
+        // (p.max_dist is in the internal representation, like rvalue, and infinite when not set)
         rvalue = INFINITY;
     }
     if (!keep_int_repr) {
@@ -1730,39 +1745,34 @@ seq_t dtw_warping_paths_ndim_euclidean(seq_t *wps,
 //    dtw_print_wps(wps, l1, l2, settings);
 
     seq_t rvalue = 0;
-    idx_t final_wpsi = ri_widthp + wpsi - 1;
+    // Index of the last cell: the rows below the left overlap are shifted in the compact layout
+    idx_t final_wpsi = l1*p.width + l2 - dtw_wps_shift(&p, l1 - 1);
     // Deal with Psi-relaxation
     if (return_dtw && settings->psi_1e == 0 && settings->psi_2e == 0) {
         rvalue = wps[final_wpsi];
     } else if (return_dtw) {
         seq_t mir_value = INFINITY;
-        idx_t mir_rel = 0;
+        idx_t mir_rel = l1;
         seq_t mic_value = INFINITY;
-        idx_t mic = 0;
+        idx_t mic = l2;
         // Find smallest value in last column
         if (settings->psi_1e != 0) {
-            wpsi = final_wpsi;
-            for (ri=l1-1; ri>l1-settings->psi_1e-2; ri--) {
-                if (wps[wpsi] < mir_value) {
-                    mir_value = wps[wpsi];
-                    mir_rel = ri + 1;
-                } else {
-                    // pass
+            for (ri=l1; ri>0 && ri+settings->psi_1e>=l1; ri--) {
+                ci = l2 - dtw_wps_shift(&p, ri - 1);  // index of the last column in row ri
+                if (ci >= 0 && ci < p.width && wps[ri*p.width + ci] < mir_value) {
+                    mir_value = wps[ri*p.width + ci];
+                    mir_rel = ri;
                 }
-                wpsi -= p.width;
             }
         }
         // Find smallest value in last row
         if (settings->psi_2e != 0) {
-            wpsi = final_wpsi;
-            for (ci=l2-1; ci>l2-settings->psi_2e-2; ci--) {
-                if (wps[wpsi] < mic_value) {
-                    mic_value = wps[wpsi];
-                    mic = ci + 1;
-                } else {
-                    // pass
+            for (ci=l2; ci>0 && ci+settings->psi_2e>=l2; ci--) {
+                wpsi = ci - dtw_wps_shift(&p, l1 - 1);  // index of column ci in the last row
+                if (wpsi >= 0 && wpsi < p.width && wps[l1*p.width + wpsi] < mic_value) {
+                    mic_value = wps[l1*p.width + wpsi];
+                    mic = ci;
                 }
-                wpsi -= 1;
             }
         }
         // Set values with higher indices than the smallest value to -1
@@ -1770,21 +1780,22 @@ seq_t dtw_warping_paths_ndim_euclidean(seq_t *wps,
         if (mir_value < mic_value) {
             // last column has smallest value
             if (psi_neg) {
-                for (idx_t ri=mir_rel + 1; ri<l1 + 1; ri++) {
-                    wpsi = ri*p.width + (p.width - 1);
-                    wps[wpsi] = -1;
+                for (ri=mir_rel + 1; ri<l1 + 1; ri++) {
+                    ci = l2 - dtw_wps_shift(&p, ri - 1);
+                    if (ci >= 0 && ci < p.width) {
+                        wps[ri*p.width + ci] = -1;
+                    }
                 }
             }
             rvalue = mir_value;
         } else {
             // last row has smallest value
             if (psi_neg) {
-                for (ci=p.width - (l2 - mic); ci<p.width; ci++) {
-                    wpsi = l1*p.width + ci;
-                    if (p.window != 0 && p.window != l2) {
-                        wpsi--;
+                for (ci=mic + 1; ci<l2 + 1; ci++) {
+                    wpsi = ci - dtw_wps_shift(&p, l1 - 1);
+                    if (wpsi >= 0 && wpsi < p.width) {
+                        wps[l1*p.width + wpsi] = -1;
                     }
-                    wps[wpsi] = -1;
                 }
             }
             rvalue =  mic_value;
@@ -1793,8 +1804,9 @@ seq_t dtw_warping_paths_ndim_euclidean(seq_t *wps,
         rvalue = -1;
     }
 
-    if (settings->max_dist > 0 && rvalue > settings->max_dist) {
+    if (rvalue > p.max_dist) {
         // DTWPruned keeps the last value larger than max_dist. Correct for this.
+        // (p.max_dist is in the internal representation, like rvalue, and infinite when not set)
         rvalue = INFINITY;
     }
 
